@@ -59,6 +59,9 @@ cases = st.fixed_dictionaries({
     "blocked_client": st.booleans(),
     "ticks": st.lists(st.lists(attack, min_size=0, max_size=6), min_size=5, max_size=40),
     "tail": st.sampled_from([12, 12, 70, 140]),                # steps (17 ms) after the last attack tick
+    "stall": st.one_of(st.none(), st.none(), st.fixed_dictionaries({
+        "len": st.sampled_from([70, 130, 200, 250]),
+        "kinds": st.lists(st.sampled_from(["hello", "hello", "rehello", "hdr-empty", "hello-trunc", "crc-garbage"]), min_size=1, max_size=3)})),
     "block_late": st.one_of(st.none(), st.integers(0, 30)),    # tick at which the second honest client's IP is put on the block list
 })
 
@@ -259,6 +262,8 @@ def body(ctx, c, bulk=0):
             step_no[0] += 1
             if step_no[0] % 4 == 0:
                 for i, h in enumerate(honest):
+                    if not h.alive or step_no[0] < getattr(h, "_quiet_until", 0):
+                        continue       # (an application that is stalled does not send; after a stall it first drains its backlog)
                     pl = b"ECHO" + struct.pack(">IH", step_no[0], i) + W.payload_for(step_no[0], 10)
                     h.send(pl, retry=0, callback=False)
                     probes[pl] = (h, w.clock.t, step_no[0])
@@ -343,6 +348,28 @@ def body(ctx, c, bulk=0):
                         ctx.nt(cls + ("mtu=1500" if c["mtu"] == 1500 else "mtu<1500",))
                 ctx.label("%s/%s" % (cls[0], cls[3]))
             step()
+        stall = c.get("stall")
+        if stall and honest and not bulk:
+            # an honest client whose application stalls (no update() for 1..4.3 s, less than the 5 s timeout) while datagrams
+            # with its source address and a hello-typed header keep arriving: when it resumes it is served as before
+            victim = honest[-1]
+            victim.alive = False
+            probes_v = [pl for pl, (h, t, s_) in probes.items() if h is victim]
+            for pl in probes_v:
+                probes.pop(pl, None)
+            for si in range(stall["len"]):
+                if si in (stall["len"] // 3, stall["len"] // 2, (2 * stall["len"]) // 3, stall["len"] - 2):
+                    kind = stall["kinds"][si % len(stall["kinds"])]
+                    d = atk.build(kind, si * 31 + 7, si % 8, 1, c["mtu"])[:c["mtu"] + 512]
+                    n_inj += 1
+                    ctx.evaluations += 1
+                    w.net.push(w.clock.t + 0.0005, w.server_addr, victim.laddr, d)
+                step()
+            victim.alive = True
+            victim._quiet_until = step_no[0] + 20
+            for _ in range(45):
+                step()
+            flags.add("honest-client-stalled-under-spoofed-hellos")
         # keep the loop ticking: replies to an address that stays silent may be repeated a message timeout (1 s) later and
         # until the half-open connection expires (2 s)
         for _ in range(c.get("tail", 12)):
